@@ -1,17 +1,16 @@
-// ===== U9 hand-written harnesses (appended inside module `optimize_bytecode`, after the
-// ===== generated support; private items of the real file are visible) =====
+// ===== U9 hand-written Kani harnesses (module `folds` of the scratch crate) =====
+// The optimizer's Instr algebra and window rewrites are verified by Verus (vopt.py): Kani
+// pays ~7k SSA steps per `match` on the 113-variant enum even for a concrete discriminant
+// (one symbolic Instr: 3 min / 6 GB), so only loop-free, match-free obligations live here.
 
-type pf64 = core::primitive::f64;
-
-// 15-bit register range of assembly.rs Reg::encode (mirror; tied to the real text by
-// harness reg_offset_roundtrip below)
+// 15-bit register range of assembly.rs Reg::encode
 pub fn reg_encodable(r: &Reg) -> bool {
     match r {
         Reg::Top => true,
         Reg::Offset(n) => -(1i16 << 14) <= *n && *n <= (1i16 << 14) - 1,
     }
 }
-// mirror of the Verus spec fns enc_off / reg_top / reg_off (units/u9_opt/lemmas.rs, vmenv/spec.rs)
+// mirror of the Verus spec fns enc_off (units/u9_opt/lemmas.rs), reg_top / reg_off (vmenv/spec.rs)
 pub fn enc_off(x: i16) -> u16 {
     if x >= 0 { x as u16 } else { (x as i32 + 0x8000) as u16 }
 }
@@ -23,62 +22,9 @@ pub fn reg_off(arg: u16) -> i32 {
     if low >= 0x4000 { low - 0x8000 } else { low }
 }
 
-pub fn any_line() -> Line {
-    if kani::any() {
-        Line::Label(any_tok())
-    } else {
-        Line::Instr { instr: any_instr(), lineno: kani::any(), file_id: kani::any(), func_id: kani::any() }
-    }
-}
-pub fn is_label(l: &Line) -> bool {
-    matches!(l, Line::Label(_))
-}
-pub fn line_eq(a: &Line, b: &Line) -> bool {
-    match (a, b) {
-        (Line::Label(x), Line::Label(y)) => x == y,
-        (
-            Line::Instr { instr: i, lineno: l, file_id: f, func_id: g },
-            Line::Instr { instr: i2, lineno: l2, file_id: f2, func_id: g2 },
-        ) => instr_eq(i, i2) && l == l2 && f == f2 && g == g2,
-        _ => false,
-    }
-}
-fn sentinel() -> Line {
-    Line::Label(String(0xdead_beef))
-}
-fn untouched(ret: &Vec<Line>) -> bool {
-    ret.len() == 1 && line_eq(&ret[0], &sentinel())
-}
-fn opt_reg_eq(a: &Option<Reg>, b: &Option<Reg>) -> bool {
-    match (a, b) {
-        (None, None) => true,
-        (Some(x), Some(y)) => reg_eq(x, y),
-        _ => false,
-    }
-}
-fn reg_is_top_at(i: &Instr, p: usize) -> bool {
-    match reg_at(i, p) {
-        Some(r) => is_top(&r),
-        None => false,
-    }
-}
-fn reg_is_offset_at(i: &Instr, p: usize) -> bool {
-    match reg_at(i, p) {
-        Some(r) => !is_top(&r),
-        None => false,
-    }
-}
-fn reg_is(i: &Instr, p: usize, r: &Reg) -> bool {
-    match reg_at(i, p) {
-        Some(x) => reg_eq(&x, r),
-        None => false,
-    }
-}
-
-// ------------------------------------------------------------------ Reg::encode
 /// C05.enc.reg_offset.roundtrip: for every offset in the 15-bit range the REAL Reg::encode
-/// returns enc_off(n), which is not a Top encoding and decodes (reg_off, = the VM's
-/// `((arg << 1) as i16 >> 1)`) to n.  Top encodes to 0x8000.
+/// returns enc_off(n), which is not a Top encoding and decodes (spec reg_off, and the VM's own
+/// expression `((arg << 1) as i16 >> 1)` of load_offset_or_top) to n.  Top encodes to 0x8000.
 #[kani::proof]
 fn reg_offset_roundtrip() {
     let n: i16 = kani::any();
@@ -88,497 +34,8 @@ fn reg_offset_roundtrip() {
     assert!(!reg_top(e), "an offset never encodes as Top");
     assert!(reg_off(e) == n as i32, "decoding gives the offset back");
     assert!(((e << 1) as i16 >> 1) == n, "the VM's decoding expression gives the offset back");
+    assert!((e >> 15) == 0, "the VM's use_top flag is clear");
     assert!(Reg::Top.encode() == 0x8000 && reg_top(Reg::Top.encode()));
     kani::cover!(n < 0, "negative offsets reachable");
     kani::cover!(n == 16383, "largest offset reachable");
-}
-
-// ------------------------------------------------------------------ replace_* frames
-/// C05.opt.replace_dest.frame
-#[kani::proof]
-fn replace_dest_frame() {
-    let i = any_instr();
-    let r = any_reg();
-    kani::assume(i.dest_is_top());
-    let j = i.clone().replace_dest(r.clone()); // reaching the panic arm is a FAILURE
-    let p = dest_pos(&i);
-    assert!(p.is_some(), "dest_is_top accepted an opcode whose VM arm does not end with a store to a register operand");
-    let p = p.unwrap();
-    assert!(eq_except(&i, &j, p), "same opcode, every operand other than dest unchanged");
-    assert!(reg_is(&j, p, &r), "dest == r");
-    kani::cover!(true, "reachable");
-    kani::cover!(opcode(&i) == OP_ArrayPop, "ArrayPop reachable");
-}
-
-/// C05.opt.replace_first_arg.frame
-#[kani::proof]
-fn replace_first_arg_frame() {
-    let i = any_instr();
-    let r = any_reg();
-    kani::assume(i.first_arg_is_top_and_second_arg_is_offset_or_imm());
-    let j = i.clone().replace_first_arg(r.clone());
-    // "first argument" = the register fetched second by the VM arm (reg1 of a three-register
-    // arm), or the only register of an immediate form
-    let p = match src2_pos(&i) {
-        Some(q) => Some(q),
-        None => src1_pos(&i),
-    };
-    assert!(p.is_some(), "predicate accepted an opcode without a register source operand");
-    let p = p.unwrap();
-    assert!(eq_except(&i, &j, p), "same opcode, every other operand unchanged");
-    assert!(reg_is(&j, p, &r), "first argument == r");
-    kani::cover!(true, "reachable");
-    kani::cover!(opcode(&i) == OP_SetIndex, "SetIndex reachable");
-}
-
-/// C05.opt.replace_second_arg.frame
-#[kani::proof]
-fn replace_second_arg_frame() {
-    let i = any_instr();
-    let r = any_reg();
-    kani::assume(i.second_arg_is_top());
-    let j = i.clone().replace_second_arg(r.clone());
-    let p = src1_pos(&i);
-    assert!(p.is_some(), "predicate accepted an opcode whose VM arm does not start by fetching a register operand");
-    let p = p.unwrap();
-    assert!(eq_except(&i, &j, p), "same opcode, every other operand unchanged");
-    assert!(reg_is(&j, p, &r), "second argument == r");
-    kani::cover!(true, "reachable");
-    kani::cover!(opcode(&i) == OP_SetField, "SetField reachable");
-}
-
-// ------------------------------------------------------------------ predicates
-/// C05.opt.predicates.sound.second_arg_is_top: the operand the predicate calls "second
-/// argument" is the register the VM arm fetches FIRST (before any other stack access), and it
-/// is Top.  That is the hypothesis of lemma F1 (LoadOffset(x); Op(.., Top) == Op(.., Offset x)).
-#[kani::proof]
-fn pred_second_arg_is_top_sound() {
-    let i = any_instr();
-    kani::assume(i.second_arg_is_top());
-    let p = src1_pos(&i);
-    assert!(p.is_some(), "VM arm of this opcode does not fetch a register operand before every other stack access");
-    assert!(reg_is_top_at(&i, p.unwrap()), "that operand is Top");
-    kani::cover!(true, "reachable");
-}
-
-/// C05.opt.predicates.sound.first_arg: under the rule ORDER of peephole2_helper (the
-/// second-argument rule is tried first, so here !second_arg_is_top()), the operand called
-/// "first argument" is Top and is either (a) the only register source of an immediate form
-/// (fetched first: lemma F1u) or (b) the register fetched second while the register fetched
-/// first is an Offset (lemma F2).
-#[kani::proof]
-fn pred_first_arg_sound() {
-    let i = any_instr();
-    kani::assume(i.first_arg_is_top_and_second_arg_is_offset_or_imm());
-    kani::assume(!i.second_arg_is_top()); // guaranteed by match-arm order, checked by p2_rule_order
-    match src2_pos(&i) {
-        Some(q) => {
-            let p1 = src1_pos(&i).unwrap();
-            assert!(reg_is_offset_at(&i, p1), "the register fetched first is an Offset");
-            assert!(reg_is_top_at(&i, q), "the register fetched second is Top");
-        }
-        None => {
-            let p = src1_pos(&i);
-            assert!(p.is_some(), "opcode has a register source operand");
-            assert!(int_imm_pos(&i).is_some() || float_imm_pos(&i).is_some(), "single-source opcode accepted here is an immediate form");
-            assert!(reg_is_top_at(&i, p.unwrap()), "its register is Top");
-        }
-    }
-    kani::cover!(true, "reachable");
-    kani::cover!(opcode(&i) == OP_SetIndex, "SetIndex reachable");
-}
-
-/// C05.opt.predicates.sound.dest_is_top: the operand called dest is written by the LAST
-/// stack access of the VM arm and is Top (hypothesis of lemma L3).
-#[kani::proof]
-fn pred_dest_is_top_sound() {
-    let i = any_instr();
-    kani::assume(i.dest_is_top());
-    let p = dest_pos(&i);
-    assert!(p.is_some(), "VM arm does not end with a store to a register operand");
-    assert!(reg_is_top_at(&i, p.unwrap()), "dest is Top");
-    kani::cover!(true, "reachable");
-}
-
-// ------------------------------------------------------------------ Imm twins
-fn twin_common(i: &Instr, j: &Instr, twin: Option<u16>) -> usize {
-    assert!(twin.is_some(), "opcode accepted by can_replace_second_arg_with_imm_* has no Imm twin by name");
-    assert!(opcode(j) == twin.unwrap(), "result is the opcode's OWN Imm twin (X -> XImm)");
-    let p = src1_pos(i);
-    assert!(p.is_some(), "opcode fetches a register operand first");
-    let p = p.unwrap();
-    assert!(arity(i) == arity(j), "same number of operands");
-    // every operand other than the replaced one is carried over unchanged
-    assert!(p == 0 || opt_reg_eq(&reg_at(i, 0), &reg_at(j, 0)), "operand 0 unchanged");
-    assert!(p == 1 || opt_reg_eq(&reg_at(i, 1), &reg_at(j, 1)), "operand 1 unchanged");
-    assert!(p == 2 || opt_reg_eq(&reg_at(i, 2), &reg_at(j, 2)), "operand 2 unchanged");
-    // the twin's VM arm fetches the remaining register first and writes the same dest
-    assert!(src1_pos(j) == src2_pos(i), "twin fetches the former first argument");
-    assert!(src2_pos(j).is_none());
-    assert!(dest_pos(j) == dest_pos(i), "twin writes the same dest operand");
-    p
-}
-
-/// C05.opt.replace_second_arg_imm_int.twin
-#[kani::proof]
-fn replace_second_arg_imm_int_twin() {
-    let i = any_instr();
-    let k: AbraInt = kani::any();
-    kani::assume(i.can_replace_second_arg_with_imm_int());
-    let j = i.clone().replace_second_arg_imm_int(k);
-    let p = twin_common(&i, &j, int_twin(opcode(&i)));
-    assert!(int_imm_pos(&j) == Some(p), "the immediate takes the place of the register fetched first");
-    assert!(int_at(&j, p) == Some(k), "imm == k");
-    kani::cover!(true, "reachable");
-    kani::cover!(opcode(&i) == OP_ArrayPush, "ArrayPush reachable");
-}
-
-/// C05.opt.replace_second_arg_imm_float.twin
-#[kani::proof]
-fn replace_second_arg_imm_float_twin() {
-    let i = any_instr();
-    let k = any_tok();
-    kani::assume(i.can_replace_second_arg_with_imm_float());
-    let j = i.clone().replace_second_arg_imm_float(k.clone());
-    let p = twin_common(&i, &j, float_twin(opcode(&i)));
-    assert!(float_imm_pos(&j) == Some(p), "the immediate takes the place of the register fetched first");
-    assert!(tok_at(&j, p) == Some(k), "imm == k");
-    kani::cover!(true, "reachable");
-}
-
-// ------------------------------------------------------------------ windows
-fn window(n_max: usize) -> (Vec<Line>, usize, usize) {
-    let mut lines = vec![any_line(), any_line(), any_line()];
-    let n: usize = kani::any();
-    kani::assume(1 <= n && n <= n_max);
-    lines.truncate(n);
-    let index: usize = kani::any();
-    kani::assume(index < n);
-    (lines, n, index)
-}
-
-/// C05.opt.peephole1.window: never touches `ret`; false on a Label; true exactly for PushNil(0)
-/// (L5: pushing zero values is a no-op).
-#[kani::proof]
-fn p1_window() {
-    let (lines, _n, index) = window(2);
-    let mut ret = vec![sentinel()];
-    let fired = peephole1_helper(&lines, index, &mut ret);
-    assert!(untouched(&ret), "peephole1 never appends");
-    match &lines[index] {
-        Line::Label(_) => assert!(!fired, "Label => false"),
-        Line::Instr { instr, .. } => {
-            let is_pushnil0 = opcode(instr) == OP_PushNil && u16_at(instr, 0) == Some(0);
-            assert!(fired == is_pushnil0, "true exactly for PushNil(0)");
-        }
-    }
-    kani::cover!(fired, "deletion reachable");
-    kani::cover!(!fired, "non-deletion reachable");
-}
-
-/// C05.opt.peephole2.window (blocked part): a Label in either slot, or no second slot => false, ret untouched.
-#[kani::proof]
-fn p2_window_blocked() {
-    let (lines, n, index) = window(3);
-    kani::assume(is_label(&lines[index]) || index + 1 >= n || is_label(&lines[index + 1]));
-    // the PushNil(n)-underflow cannot be reached here: it needs two Instr slots
-    let mut ret = vec![sentinel()];
-    let fired = peephole2_helper(&lines, index, &mut ret);
-    assert!(!fired, "blocked window => false");
-    assert!(untouched(&ret), "blocked window => ret untouched");
-    kani::cover!(index + 1 >= n, "short window reachable");
-    kani::cover!(index + 1 < n && is_label(&lines[index + 1]), "label in second slot reachable");
-}
-
-/// The rewrite relation justified by the lemmas of units/u9_opt/lemmas.rs.  `out` is the single
-/// line appended (None = pure deletion).  Stated over the VM-derived operand layout
-/// (src1/src2/dest positions), NOT over the optimizer's own predicates.
-fn justified2(i1: &Instr, i2: &Instr, out: &Option<Instr>) -> bool {
-    let o1 = opcode(i1);
-    let o2 = opcode(i2);
-    match out {
-        None => {
-            // L5: PushX; Pop and Duplicate; Pop cancel.  L7: constant condition not taken.
-            ((o1 == OP_PushBool || o1 == OP_PushFloat || o1 == OP_PushInt || o1 == OP_PushString || o1 == OP_Duplicate) && o2 == OP_Pop)
-                || (o1 == OP_PushBool && bool_at(i1, 0) == Some(true) && o2 == OP_JumpIfFalse)
-                || (o1 == OP_PushBool && bool_at(i1, 0) == Some(false) && o2 == OP_JumpIf)
-        }
-        Some(o) => {
-            let oo = opcode(o);
-            // L5: PushNil(n); Pop == PushNil(n-1), n >= 1
-            if o1 == OP_PushNil && o2 == OP_Pop {
-                let n = u16_at(i1, 0).unwrap();
-                return n >= 1 && oo == OP_PushNil && u16_at(o, 0) == Some(n - 1);
-            }
-            // L6: Not(Top, Top); JumpIf(l) == JumpIfFalse(l)
-            if o1 == OP_Not && o2 == OP_JumpIf {
-                return reg_is_top_at(i1, 0) && reg_is_top_at(i1, 1) && oo == OP_JumpIfFalse && tok_at(o, 0) == tok_at(i2, 0);
-            }
-            // L7: PushBool(true); JumpIf(l) == Jump(l)
-            if o1 == OP_PushBool && o2 == OP_JumpIf {
-                return bool_at(i1, 0) == Some(true) && oo == OP_Jump && tok_at(o, 0) == tok_at(i2, 0);
-            }
-            // L7': PushBool(b); Not(Top, Top) == PushBool(!b)
-            if o1 == OP_PushBool && o2 == OP_Not && reg_is_top_at(i2, 0) && reg_is_top_at(i2, 1) {
-                return oo == OP_PushBool && bool_at(o, 0) == Some(!bool_at(i1, 0).unwrap());
-            }
-            // L8: PushInt(k); StoreOffset(n) == StoreOffsetImm(n, k)
-            if o1 == OP_PushInt && o2 == OP_StoreOffset {
-                return oo == OP_StoreOffsetImm && i16_at(o, 0) == i16_at(i2, 0) && int_at(o, 1) == int_at(i1, 0);
-            }
-            // F1 / F1u / F2: LoadOffset(x); Op(.., Top ..) == Op(.., Offset x ..)
-            if o1 == OP_LoadOffset {
-                let x = Reg::Offset(i16_at(i1, 0).unwrap());
-                if let Some(p) = src1_pos(i2) {
-                    if reg_is_top_at(i2, p) {
-                        // the operand fetched first is Top: it must be the one replaced (F1)
-                        return eq_except(i2, o, p) && reg_is(o, p, &x);
-                    }
-                    if let Some(q) = src2_pos(i2) {
-                        // operand fetched first is an Offset, operand fetched second is Top (F2)
-                        return reg_is_top_at(i2, q) && eq_except(i2, o, q) && reg_is(o, q, &x);
-                    }
-                }
-                return false;
-            }
-            // L3: Op(Top, ..); StoreOffset(n) == Op(Offset n, ..)
-            if o2 == OP_StoreOffset {
-                if let Some(p) = dest_pos(i1) {
-                    let d = Reg::Offset(i16_at(i2, 0).unwrap());
-                    return reg_is_top_at(i1, p) && eq_except(i1, o, p) && reg_is(o, p, &d);
-                }
-                return false;
-            }
-            // L4: PushInt(k) / PushFloat(k); Op(.., Top) == OpImm(.., k)
-            if o1 == OP_PushInt || o1 == OP_PushFloat {
-                let twin = if o1 == OP_PushInt { int_twin(o2) } else { float_twin(o2) };
-                if let (Some(t), Some(p)) = (twin, src1_pos(i2)) {
-                    let imm_ok = if o1 == OP_PushInt {
-                        int_imm_pos(o) == Some(p) && int_at(o, p) == int_at(i1, 0)
-                    } else {
-                        float_imm_pos(o) == Some(p) && tok_at(o, p) == tok_at(i1, 0)
-                    };
-                    return reg_is_top_at(i2, p)
-                        && oo == t
-                        && imm_ok
-                        && arity(o) == arity(i2)
-                        && (p == 0 || opt_reg_eq(&reg_at(i2, 0), &reg_at(o, 0)))
-                        && (p == 1 || opt_reg_eq(&reg_at(i2, 1), &reg_at(o, 1)))
-                        && (p == 2 || opt_reg_eq(&reg_at(i2, 2), &reg_at(o, 2)));
-                }
-                return false;
-            }
-            false
-        }
-    }
-}
-
-fn p2_setup() -> (Instr, Instr, usize, u32, u32, Vec<Line>) {
-    let i1 = any_instr();
-    let i2 = any_instr();
-    let (l1, f1, g1): (usize, u32, u32) = (kani::any(), kani::any(), kani::any());
-    let mut lines = vec![
-        Line::Instr { instr: i1.clone(), lineno: l1, file_id: f1, func_id: g1 },
-        Line::Instr { instr: i2.clone(), lineno: kani::any(), file_id: kani::any(), func_id: kani::any() },
-        any_line(),
-    ];
-    if kani::any() {
-        lines.truncate(2);
-    }
-    // ASSUMED PRECONDITION (recorded): the translator never emits PushNil(0); Pop
-    // (`n - 1` on u16 underflows).  peephole1 deletes PushNil(0) but only after peephole2
-    // has had its turn on the same index.
-    kani::assume(!(opcode(&i1) == OP_PushNil && u16_at(&i1, 0) == Some(0) && opcode(&i2) == OP_Pop));
-    (i1, i2, l1, f1, g1, lines)
-}
-
-/// C05.opt.peephole2.window (rule part): when the helper fires it appended at most one line,
-/// carrying the first line's lineno/file_id/func_id, and (i1, i2) -> out is one of the
-/// rewrites proved by lemmas L3..L8, F1, F1u, F2, F4.  When it does not fire ret is untouched.
-#[kani::proof]
-fn p2_window_rule() {
-    let (i1, i2, l1, f1, g1, lines) = p2_setup();
-    let mut ret = vec![sentinel()];
-    let fired = peephole2_helper(&lines, 0, &mut ret);
-    if !fired {
-        assert!(untouched(&ret), "false => ret untouched");
-    } else {
-        assert!(ret.len() == 1 || ret.len() == 2, "at most one line appended");
-        assert!(line_eq(&ret[0], &sentinel()), "earlier output untouched");
-        let out = if ret.len() == 2 {
-            match &ret[1] {
-                Line::Label(_) => {
-                    assert!(false, "a Label was appended");
-                    None
-                }
-                Line::Instr { instr, lineno, file_id, func_id } => {
-                    assert!(*lineno == l1 && *file_id == f1 && *func_id == g1, "appended line carries the FIRST line's lineno/file_id/func_id");
-                    Some(instr.clone())
-                }
-            }
-        } else {
-            None
-        };
-        assert!(justified2(&i1, &i2, &out), "the rewrite is one of the proved rules");
-    }
-    kani::cover!(fired && ret.len() == 2, "replacement reachable");
-    kani::cover!(fired && ret.len() == 1, "deletion reachable");
-    kani::cover!(!fired, "no-rule reachable");
-    kani::cover!(fired && opcode(&i1) == OP_LoadOffset && opcode(&i2) == OP_SetIndex, "SetIndex rule reachable");
-}
-
-/// C05.opt.peephole2.rule_order: LoadOffset(x); Op(.., Top, Top) -- both register sources Top --
-/// must replace the operand fetched FIRST.  (Replacing the other one would swap the operands;
-/// for SetIndex(Top, _) the first-argument predicate alone would allow it.)
-#[kani::proof]
-fn p2_rule_order() {
-    let (i1, i2, _l1, _f1, _g1, lines) = p2_setup();
-    kani::assume(opcode(&i1) == OP_LoadOffset);
-    let (p, q) = (src1_pos(&i2), src2_pos(&i2));
-    kani::assume(p.is_some() && q.is_some());
-    let (p, q) = (p.unwrap(), q.unwrap());
-    kani::assume(reg_is_top_at(&i2, p) && reg_is_top_at(&i2, q));
-    let mut ret = vec![sentinel()];
-    let fired = peephole2_helper(&lines, 0, &mut ret);
-    if fired {
-        assert!(ret.len() == 2);
-        if let Line::Instr { instr, .. } = &ret[1] {
-            assert!(reg_is_top_at(instr, q), "the operand fetched second is still Top");
-            assert!(reg_is_offset_at(instr, p), "the operand fetched first was replaced");
-        }
-    }
-    kani::cover!(fired && opcode(&i2) == OP_SetIndex, "SetIndex(Top, Top) reachable");
-    kani::cover!(fired && opcode(&i2) == OP_AddInt, "AddInt(_, Top, Top) reachable");
-}
-
-/// C05.opt.peephole2.encodable: if every register operand of the window can be assembled
-/// (Reg::encode does not panic) then so can every register operand of the rewritten line.
-/// LoadOffset/StoreOffset carry a full i16, a register operand only 15 bits.
-#[kani::proof]
-fn p2_encodable() {
-    let (i1, i2, _l1, _f1, _g1, lines) = p2_setup();
-    let enc = |i: &Instr, p: usize| match reg_at(i, p) {
-        Some(r) => reg_encodable(&r),
-        None => true,
-    };
-    kani::assume(enc(&i1, 0) && enc(&i1, 1) && enc(&i1, 2) && enc(&i2, 0) && enc(&i2, 1) && enc(&i2, 2));
-    let mut ret = vec![sentinel()];
-    let fired = peephole2_helper(&lines, 0, &mut ret);
-    if fired && ret.len() == 2 {
-        if let Line::Instr { instr, .. } = &ret[1] {
-            // the REAL encode: its panic ("out of 15-bit range") is the failure
-            if let Some(r) = reg_at(instr, 0) {
-                r.encode();
-            }
-            if let Some(r) = reg_at(instr, 1) {
-                r.encode();
-            }
-            if let Some(r) = reg_at(instr, 2) {
-                r.encode();
-            }
-        }
-    }
-    kani::cover!(fired && ret.len() == 2 && opcode(&i1) == OP_LoadOffset, "LoadOffset rule reachable");
-}
-
-/// C05.opt.peephole3.window (blocked part)
-#[kani::proof]
-fn p3_window_blocked() {
-    let (lines, n, index) = window(3);
-    kani::assume(
-        is_label(&lines[index]) || index + 2 >= n || is_label(&lines[index + 1]) || is_label(&lines[index + 2]),
-    );
-    let mut ret = vec![sentinel()];
-    let fired = peephole3_helper(&lines, index, &mut ret);
-    assert!(!fired, "blocked window => false");
-    assert!(untouched(&ret), "blocked window => ret untouched");
-    kani::cover!(index + 2 >= n, "short window reachable");
-    kani::cover!(n == 3 && index == 0 && is_label(&lines[2]), "label in third slot reachable");
-}
-
-fn all_top3(i: &Instr) -> bool {
-    reg_is_top_at(i, 0) && reg_is_top_at(i, 1) && reg_is_top_at(i, 2)
-}
-
-/// C05.opt.peephole3.window (rule part): when it fires, exactly one line was appended, it
-/// carries the first line's ids, and the window is PushInt; PushInt; Op(Top,Top,Top) -> PushInt
-/// with Op an integer fold opcode, or the same with floats.  WHICH value is pushed, and that
-/// nothing is folded when the VM arm would raise an error, is C05.fold.<Op>.sound.
-#[kani::proof]
-#[kani::unwind(6)]
-fn p3_window_rule() {
-    let i1 = any_instr();
-    let i2 = any_instr();
-    let i3 = any_instr();
-    let (l1, f1, g1): (usize, u32, u32) = (kani::any(), kani::any(), kani::any());
-    // value bound (structure does not depend on it; keeps CBMC away from 64-bit * / pow)
-    if opcode(&i3) == OP_MulInt || opcode(&i3) == OP_DivInt || opcode(&i3) == OP_PowInt {
-        if let Some(a) = int_at(&i1, 0) {
-            kani::assume(-8 <= a && a <= 8);
-        }
-        if let Some(b) = int_at(&i2, 0) {
-            kani::assume(-1 <= b && b <= 8);
-        }
-    }
-    let lines = vec![
-        Line::Instr { instr: i1.clone(), lineno: l1, file_id: f1, func_id: g1 },
-        Line::Instr { instr: i2.clone(), lineno: kani::any(), file_id: kani::any(), func_id: kani::any() },
-        Line::Instr { instr: i3.clone(), lineno: kani::any(), file_id: kani::any(), func_id: kani::any() },
-    ];
-    let mut ret = vec![sentinel()];
-    let fired = peephole3_helper(&lines, 0, &mut ret);
-    if !fired {
-        assert!(untouched(&ret), "false => ret untouched");
-    } else {
-        assert!(ret.len() == 2, "exactly one line appended");
-        assert!(line_eq(&ret[0], &sentinel()), "earlier output untouched");
-        match &ret[1] {
-            Line::Label(_) => assert!(false, "a Label was appended"),
-            Line::Instr { instr, lineno, file_id, func_id } => {
-                assert!(*lineno == l1 && *file_id == f1 && *func_id == g1, "appended line carries the FIRST line's ids");
-                let o3 = opcode(&i3);
-                let int_fold = opcode(&i1) == OP_PushInt
-                    && opcode(&i2) == OP_PushInt
-                    && (o3 == OP_AddInt || o3 == OP_SubInt || o3 == OP_MulInt || o3 == OP_DivInt || o3 == OP_PowInt)
-                    && all_top3(&i3)
-                    && opcode(instr) == OP_PushInt;
-                let float_fold = opcode(&i1) == OP_PushFloat
-                    && opcode(&i2) == OP_PushFloat
-                    && (o3 == OP_AddFloat || o3 == OP_SubFloat || o3 == OP_MulFloat || o3 == OP_DivFloat || o3 == OP_PowFloat)
-                    && all_top3(&i3)
-                    && opcode(instr) == OP_PushFloat;
-                assert!(int_fold || float_fold, "the window is a constant fold over (Top, Top, Top)");
-            }
-        }
-    }
-    kani::cover!(fired && opcode(&i3) == OP_AddInt, "int fold reachable");
-    kani::cover!(fired && opcode(&i3) == OP_MulFloat, "float fold reachable");
-    kani::cover!(!fired, "no-fold reachable");
-}
-
-/// C05.opt.pass.order: optimization_pass tries peephole3, then 2, then 1 at every index and a
-/// line that no helper claims is copied unchanged (2-line programs; bounded).
-#[kani::proof]
-#[kani::unwind(4)]
-fn pass_copies_unclaimed() {
-    let (lines, n, _index) = window(2);
-    let mut scratch = vec![];
-    let claimed0 = peephole3_helper(&lines, 0, &mut scratch) || peephole2_helper_guarded(&lines, 0, &mut scratch) || peephole1_helper(&lines, 0, &mut scratch);
-    kani::assume(!claimed0);
-    kani::assume(n == 1 || !(peephole2_helper_guarded(&lines, 1, &mut scratch) || peephole1_helper(&lines, 1, &mut scratch)));
-    let out = optimization_pass(lines.clone());
-    assert!(out.len() == n, "nothing claimed => same length");
-    assert!(line_eq(&out[0], &lines[0]));
-    assert!(n == 1 || line_eq(&out[1], &lines[1]));
-    kani::cover!(n == 2, "two-line program reachable");
-}
-fn peephole2_helper_guarded(lines: &[Line], index: usize, ret: &mut Vec<Line>) -> bool {
-    if let Line::Instr { instr, .. } = &lines[index] {
-        if index + 1 < lines.len() {
-            if let Line::Instr { instr: i2, .. } = &lines[index + 1] {
-                kani::assume(!(opcode(instr) == OP_PushNil && u16_at(instr, 0) == Some(0) && opcode(i2) == OP_Pop));
-            }
-        }
-    }
-    peephole2_helper(lines, index, ret)
 }
